@@ -73,6 +73,14 @@ def handle (op : String) (a : Json) : P Json := do
   | "decode" => pure <| resJ toJson (decodePb (← pbOfJson (← field a "m")))
   | "roundtrip" => pure <| resJ toJson (decodePb (encScn (← scn a)))
   | "norm" => pure <| toJson (normPb (← scn a))
+  | "history" => do
+    -- one writer object, a list of calls (true = write_to_file, false = write_scenario_to_file): the file of every call
+    let x ← scn a
+    let T ← tables a
+    let ops ← getList asBool a "ops"
+    pure <| Json.arr ((Wr.run Wr.new x ops).map fun m => match m.check T with
+      | some e => errJ e
+      | none => okJ (pbToJson m)).toArray
   | "spec_classes" => do
     -- the class each non-initial state denotes (`St.specClass`, computed from the snapshot alone), in traversal order
     let x ← scn a
